@@ -145,6 +145,11 @@ def run():
         third = docs.mutate(data, r)
         if not isinstance(third, (dict, list)) or third == data or docs.has_twins(third) and False:
             third = [data, "x"]
+        # whole-document replacements: the two top-level values are of different kinds and one of them is EMPTY (the cost of
+        # such a replacement sits exactly on the bound a wrapping edit computes for itself)
+        forced = (([], {"a": 1}), ({"a": 1}, []), ({}, [1, 2]), ([1, 2], {}), ([], {}), ({}, []), ([], {"a": []}), ({"k": {}}, []))
+        if i % 10 == 1:
+            data, third = forced[(i // 10) % len(forced)]
         # every fourth document contains nulls (and an empty container): a plist file cannot hold null, so these are
         # compared across JSON, JSON5 and YAML only
         with_null = i % 4 == 3
